@@ -90,6 +90,8 @@ def r1(ctx):
                 ok = True
     ctx.check(ok, fi, "loop bound is exactly arguments.iteration_limit", line=lp.lineno, role="loop:bound",
               expected="range(<UserArguments>.iteration_limit)", found=found)
+    from .plumb import plumb
+    plumb(ctx, ["iteration_limit"])          # ... and that field is the caller's iteration_limit in both front ends
     # assertion limit > 0 dominating the loop
     asserts = []
     for n in ml.cfg.nodes:
@@ -319,6 +321,12 @@ def r3(ctx):
 @rule("C09", "R4", "FLOW", "every result field derives from the state produced by the last relabel", floor=3, evidence=True)
 def r4(ctx):
     ana = ctx.ana
+    from . import c04
+    saved_ev, ctx.evidence = ctx.evidence, False
+    try:
+        ctx.sub(c04.r5, only=("mrfs",))      # "the ... MRFs it returns are those of the last round": the very matrices the labelling was scored with
+    finally:
+        ctx.evidence = saved_ev
     ml = MainLoop(ana)
     fi, cfg, rd = ml.fi, ml.cfg, ml.rd
     rel = ml.phase_node("relabel")
@@ -402,6 +410,8 @@ def r7(ctx):
     for r_ in (c01.r1, c01.r2, c01.r3, c01.r4, c01.r6, c01.r7):
         ctx.sub(r_)                                       # the relabel kernel returns a minimum-cost sequence and its cost
     ctx.sub(c01.r9, only=("handover:",))                  # ... for minus the log-likelihood of the model it was given
+    from . import c12
+    ctx.sub(c12.r3, only=("unconditional", "range", "slot"))     # every cluster's statistics are refitted to the current labels, one-member clusters included
 
 
 # ---------------------------------------------------------------------------------------------------------------------------
